@@ -323,6 +323,9 @@ func (P) Gen(r *core.Rand, tier string, emit func([]string)) {
 				a.NilTrailer = false
 			}
 		}
+		if mode == "p" && r.Chance(1, 6) {
+			mode = "l" // repeated field names spelled in different case on the wire
+		}
 		if mode == "p" && r.Chance(1, 10) {
 			// struct fields that disagree with same-named keys of the header map: the snapshot, like
 			// the wire, carries the fields
@@ -359,6 +362,14 @@ func (P) Gen(r *core.Rand, tier string, emit func([]string)) {
 				if ab.Req && !ab.Chunked() && len(ab.Body) > 0 && r.Bool() {
 					ab.CL = -1 // a modifier replaced the body: length unknown
 				}
+				if r.Bool() {
+					// the same field name under keys of different case in the map (a modifier wrote
+					// req.Header["cookie"] directly): separate lines, all of them forwarded
+					ab.Hdr = append(ab.Hdr, msggen.KV{K: r.Pick("cookie", "x-rep", "authorization"), V: "low=1"},
+						msggen.KV{K: "x-rep", V: "lower"})
+				}
+			} else if r.Chance(1, 6) {
+				m = "l"
 			}
 			core.Count("twinmsg:" + b.Class())
 			if m == "p" && r.Chance(1, 3) {
